@@ -216,6 +216,10 @@ func filterOpsByVersionTime(ops []*operation.AnchoredOperation, timeStr string) 
 
 func (s *OperationProcessor) applyResolutionOptions(uniqueSuffix string, published, unpublished []*operation.AnchoredOperation,
 	opts document.ResolutionOptions) ([]*operation.AnchoredOperation, []*operation.AnchoredOperation, []*operation.AnchoredOperation, error) {
+	// the slices belong to the stores that returned them: append and sort copies
+	published = append([]*operation.AnchoredOperation(nil), published...)
+	unpublished = append([]*operation.AnchoredOperation(nil), unpublished...)
+
 	canonicalIds := getCanonicalMap(published)
 
 	for _, op := range opts.AdditionalOperations {
